@@ -45,6 +45,10 @@ func v1Names(m map[string]string) map[string]*string {
 	}
 	out := map[string]*string{}
 	for k, v := range m {
+		if v == NilName {
+			out[k] = nil // a placeholder whose target is a nil pointer
+			continue
+		}
 		s := v
 		out[k] = &s
 	}
@@ -401,6 +405,9 @@ func (c *V1) Do(op Op) (out Outcome) {
 		}
 		for _, e := range op.Batch {
 			wr := &v1ddb.WriteRequest{}
+			if e.Absent {
+				wr = nil // a write request that is not there (a nil pointer in the SDK v1 list)
+			}
 			if e.Put != nil {
 				wr.PutRequest = &v1ddb.PutRequest{Item: ItemToV1(e.Put)}
 			}
